@@ -79,10 +79,22 @@ func scenario(c cfg) vrt.Scenario {
 		}}
 		_ = cur
 		as := workers.NewActiveScenario(sc, m, stats, hlib.DiscardLogger(), hlib.DiscardLogrus())
+		// fresh maps for every execution (the code under test may modify them); stages that were given
+		// the same map in the configuration share one object here too, as stages that inherit
+		// default.parameters do after parsing
+		fresh := map[string]map[string]string{}
 		var vs []file.VerifStage
 		for i, s := range c.stages {
 			i := i
-			st := file.VerifStage{Params: s.params, StageDuration: 300 * time.Millisecond, IterationDuration: 100 * time.Millisecond, UsersConcurrency: s.users}
+			key := fmt.Sprintf("%p", s.params)
+			if _, ok := fresh[key]; !ok && s.params != nil {
+				m := map[string]string{}
+				for k, v := range s.params {
+					m[k] = v
+				}
+				fresh[key] = m
+			}
+			st := file.VerifStage{Params: fresh[key], StageDuration: 300 * time.Millisecond, IterationDuration: 100 * time.Millisecond, UsersConcurrency: s.users}
 			st.Rate = func(time.Time) int {
 				vrt.LogQuiet(fmt.Sprintf("eval %d %s", i, envNow()))
 				return 1
@@ -175,6 +187,7 @@ func scenariosFor(tier string) []vrt.Scenario {
 	cfgs := []cfg{
 		{"distinct-keys", []stageCfg{{0, a}, {0, b}}, -1, 0, false},
 		{"empty-parameter-value", []stageCfg{{0, a}, {0, map[string]string{"VERIF_A": "", "VERIF_B": "2"}}, {0, map[string]string{"VERIF_C": ""}}}, -1, 0, false},
+		{"inherited-parameters-shared-by-stages", []stageCfg{{0, ab1}, {0, a2}, {0, ab1}, {1, ab1}, {0, ab1}}, -1, 0, false},
 		{"two-runs-of-one-trigger", []stageCfg{{0, a}, {0, ab1}}, -1, 0, true},
 		{"two-runs-of-one-trigger/first-cut-short", []stageCfg{{0, a}, {0, ab1}}, 350 * time.Millisecond, 0, true},
 		{"overlapping-keys", []stageCfg{{0, ab1}, {0, a2}}, -1, 0, false},
